@@ -222,6 +222,9 @@ func (r *Reference) Set(t Tag, value string) error {
 			return nil
 		}
 		hb := [16]byte{}
+		if len(value) != hex.EncodedLen(len(hb)) {
+			return errBadHeader
+		}
 		n, err := hex.Decode(hb[:], []byte(value))
 		if err != nil {
 			return err
